@@ -738,6 +738,10 @@ class Interp:
             return UNK
         if k == "Call":
             return self.call(e, env)
+        if k == "NamedConst":
+            if self.prov and (e.get("ty") or "") in FLOATY:
+                return PF(frozenset())          # a constant of the float type: computed from no input element
+            return UNK
         if k == "FnItem":
             fn_ = e.get("fn") or {}
             pth = fn_.get("path") or ""
